@@ -112,7 +112,7 @@ func (r *rwRT) ruleRangeDispatch() {
 		{"map of a defined type", "Map", nil, "NewMapIter", false, true},
 		{"string of a defined type", "Basic", info("IsString"), "NewStringIter", false, true},
 	}
-		var curType AV
+	var curType AV
 	var curInfo AV
 	var curUnder types.Type
 	curNamed := false
